@@ -283,8 +283,58 @@ fn run_parts(ctx: &Ctx, rep: &mut Report) {
 /// serialised -- the current library), or (B) the text with every extension in UTS #35 canonical
 /// order: singletons in alphabetical order, private use last (which keeps t before u before x).
 /// Anything else -- e.g. the other extensions in front of -t-/-u-, or behind -x- -- is a violation.
-fn run_other_field(rep: &mut Report) {
+/// re-executes one recorded case `other:<base>|<k>-<subtag>-...,<k>-...`
+pub fn replay_other(text: &str, coll: &Collector) {
+    let Some(rest) = text.strip_prefix("other:") else { return };
+    let Some((base, ents)) = rest.split_once('|') else { return };
+    let parsed: Vec<(char, Vec<&str>)> = ents
+        .split(',')
+        .filter_map(|e| {
+            let mut it = e.split('-');
+            let k = it.next()?.chars().next()?;
+            Some((k, it.collect()))
+        })
+        .collect();
+    let entries: Vec<(char, &[&str])> = parsed.iter().map(|(k, v)| (*k, v.as_slice())).collect();
+    check_other_case(base, &entries, 0, coll, &mut 0);
+}
+
+fn check_other_case(base: &str, entries: &[(char, &[&str])], order: u64, coll: &Collector, printed: &mut u64) {
     use tinystr::TinyAsciiStr;
+    let r = guard_total(|| {
+        let mut loc: Locale = base.parse().expect("base locale");
+        let plain = loc.to_string();
+        for (k, v) in entries {
+            let list: Vec<TinyAsciiStr<8>> = v.iter().map(|x| x.parse().expect("tinystr")).collect();
+            loc.extensions.other.insert(*k, list);
+        }
+        (plain, loc.to_string(), loc.id.to_string(), loc.extensions.transform.to_string(), loc.extensions.unicode.to_string(), loc.extensions.private.to_string())
+    });
+    let desc = format!("other:{}|{}", base, entries.iter().map(|(k, v)| format!("{}-{}", k, v.join("-"))).collect::<Vec<_>>().join(","));
+    match r {
+        Ok((plain, got, id, t, u, x)) => {
+            // (B): singletons in alphabetical order, private use last
+            let mut parts: Vec<(char, String)> = entries.iter().map(|(k, v)| (*k, format!("-{}-{}", k, v.join("-")))).collect();
+            if !t.is_empty() {
+                parts.push(('t', t));
+            }
+            if !u.is_empty() {
+                parts.push(('u', u));
+            }
+            parts.sort();
+            let full = format!("{}{}{}", id, parts.iter().map(|p| p.1.as_str()).collect::<String>(), x);
+            if got != plain {
+                *printed += 1;
+            }
+            if got != plain && got != full {
+                pviol(coll, order, "c04.other", "a value with assigned `other` extensions is serialised neither without them nor in canonical singleton order", &desc, format!("{} or {}", plain, full), got);
+            }
+        }
+        Err(p) => pviol(coll, order, "c04.other", "serialising a value with assigned `other` extensions panics", &desc, "a string".into(), p),
+    }
+}
+
+fn run_other_field(rep: &mut Report) {
     let coll = std::mem::take(&mut rep.collector);
     let bases = ["en", "en-US-u-ca-buddhist", "en-t-es-AR-h0-hybrid", "en-x-priv", "en-US-valencia-t-es-AR-h0-hybrid-u-abc-ca-buddhist-x-priv-zz", "und-u-nu"];
     // every singleton of the `other` production: [0-9 a-s v-w y-z]
@@ -294,37 +344,7 @@ fn run_other_field(rep: &mut Report) {
     let mut printed = 0u64;
     let mut check = |base: &str, entries: &[(char, &[&str])]| {
         n += 1;
-        let r = guard_total(|| {
-            let mut loc: Locale = base.parse().expect("base locale");
-            let plain = loc.to_string();
-            for (k, v) in entries {
-                let list: Vec<TinyAsciiStr<8>> = v.iter().map(|x| x.parse().expect("tinystr")).collect();
-                loc.extensions.other.insert(*k, list);
-            }
-            (plain, loc.to_string(), loc.id.to_string(), loc.extensions.transform.to_string(), loc.extensions.unicode.to_string(), loc.extensions.private.to_string())
-        });
-        let desc = format!("other:{}|{}", base, entries.iter().map(|(k, v)| format!("{}-{}", k, v.join("-"))).collect::<Vec<_>>().join(","));
-        match r {
-            Ok((plain, got, id, t, u, x)) => {
-                // (B): singletons in alphabetical order, private use last
-                let mut parts: Vec<(char, String)> = entries.iter().map(|(k, v)| (*k, format!("-{}-{}", k, v.join("-")))).collect();
-                if !t.is_empty() {
-                    parts.push(('t', t));
-                }
-                if !u.is_empty() {
-                    parts.push(('u', u));
-                }
-                parts.sort();
-                let full = format!("{}{}{}", id, parts.iter().map(|p| p.1.as_str()).collect::<String>(), x);
-                if got != plain {
-                    printed += 1;
-                }
-                if got != plain && got != full {
-                    pviol(&coll, n, "c04.other", "a value with assigned `other` extensions is serialised neither without them nor in canonical singleton order", &desc, format!("{} or {}", plain, full), got);
-                }
-            }
-            Err(p) => pviol(&coll, n, "c04.other", "serialising a value with assigned `other` extensions panics", &desc, "a string".into(), p),
-        }
+        check_other_case(base, entries, n, &coll, &mut printed);
     };
     for base in bases {
         for (i, k1) in keys.iter().enumerate() {
